@@ -7,10 +7,13 @@ package ice
 
 import (
 	"context"
+	"errors"
 	"fmt"
 	"math/big"
 	"net/netip"
+	"runtime"
 	"strings"
+	"sync"
 	"testing"
 	"time"
 
@@ -415,11 +418,54 @@ func TestVerif_C03_MisbehavingPeer(t *testing.T) {
 		}
 		ownSucceeded := map[string]bool{} // pairs on which the agent's own check was answered
 		useDelivered := map[string]int{}
+		var oldReqs []*simDgram // unanswered checks of generations ended by Restart
 		for i := 0; i < nOps; i++ {
-			op := rapid.SampledFrom([]string{"tick", "peerRequest", "peerRequest", "answer", "answer", "answer", "answerFromElsewhere", "dropRequest", "signal", "dupAnswer"}).Draw(rt, "op")
+			op := rapid.SampledFrom([]string{"tick", "tick", "peerRequest", "peerRequest", "peerRequest", "answer", "answer", "answer", "answer", "answerFromElsewhere", "dropRequest", "signal", "signal", "dupAnswer", "restart", "answerOld", "answerOld"}).Draw(rt, "op")
 			arg := rapid.IntRange(0, 11).Draw(rt, "arg")
 			s.purgeNonRequests()
 			switch op {
+			case "restart":
+				// the agent restarts; the peer keeps its credentials and addresses (one-sided restart as seen by
+				// the agent); checks of the ended generation stay unanswered and may be answered later
+				if rapid.IntRange(0, 2).Draw(rt, "really") != 0 {
+					continue
+				}
+				oldReqs = append(oldReqs, s.agentRequests()...)
+				if err := s.ag.restart(); err != nil {
+					rt.Fatalf("harness: restart: %v", err)
+				}
+				s.w.mu.Lock()
+				s.w.inflight = nil
+				s.w.mu.Unlock()
+				for i, l := range locals {
+					if _, err := s.ag.addLocal(i, l.V6, l.Kind, true); err != nil {
+						rt.Fatalf("harness: %v", err)
+					}
+				}
+				_ = s.ag.a.SetRemoteCredentials(s.peer.ufrag, s.peer.pwd)
+				mon.logFrom = s.w.logLen()
+				mon.last, mon.lastKey, mon.firstPrio = nil, pairKey(nil), nil
+				ownSucceeded, useDelivered = map[string]bool{}, map[string]int{}
+				lbl["restart"] = true
+				s.ops = append(s.ops, "restart")
+			case "answerOld":
+				if len(oldReqs) == 0 {
+					continue
+				}
+				d := oldReqs[arg%len(oldReqs)]
+				ep := s.epByAddr(d.dst)
+				var to *simSock
+				for _, sk := range s.ag.socks {
+					if sk.idx == d.src.idx {
+						to = sk
+					}
+				}
+				if ep == nil || to == nil {
+					continue
+				}
+				s.inject(ep, to, simBuildSuccess(d.msg.txid, to.pub, s.peer.pwd, true).Raw)
+				lbl["answer-to-check-of-ended-generation"] = true
+				s.ops = append(s.ops, fmt.Sprintf("answerOld(%s)", d))
 			case "tick":
 				s.ag.tick()
 				s.ops = append(s.ops, "tick")
@@ -505,7 +551,7 @@ func TestVerif_C03_MisbehavingPeer(t *testing.T) {
 			labels = append(labels, l)
 		}
 		labels = append(labels, fmt.Sprintf("selections:%d", min(mon.changes, 3)), fmt.Sprintf("role:controlling=%v,lite=%v", controlling, lite))
-		nontrivial := lbl["use-candidate-before-own-check"] || lbl["use-candidate-repeated"] || lbl["use-candidate-while-selected"]
+		nontrivial := lbl["use-candidate-before-own-check"] || lbl["use-candidate-repeated"] || lbl["use-candidate-while-selected"] || lbl["answer-to-check-of-ended-generation"]
 		desc := fmt.Sprintf("controlling=%v lite=%v checkPrio=%v locals=%v eps=%v ops=%s", controlling, lite, checkPrio, locals, eps, strings.Join(s.ops, "; "))
 		st.Record(vfHashStr(desc), nontrivial && mon.changes > 0, labels...)
 		if nontrivial && mon.changes > 0 && st.WantSample() {
@@ -566,6 +612,176 @@ func TestVerif_C03_DuoHistories(t *testing.T) {
 		st.Record(vfHashStr(c.String()+strings.Join(d.ops, ";")), sel > 0 && (d.lbl["stun-dropped"] || d.lbl["stun-duplicated"] || d.lbl["reordered"]), fmt.Sprintf("selections:%d", min(sel, 4)))
 		if sel > 0 && st.WantSample() {
 			st.Sample(func() string { return fmt.Sprintf("%s | %d ops | final %s", c, len(d.ops), d.snapshotSel()) })
+		}
+	})
+}
+
+// c03ParkedInRun counts goroutines parked in taskloop.Run on behalf of fn (a substring of a frame).
+func c03ParkedInRun(fn string) int {
+	buf := make([]byte, 1<<20)
+	n := runtime.Stack(buf, true)
+	c := 0
+	for _, g := range strings.Split(string(buf[:n]), "\n\n") {
+		if strings.Contains(g, "taskloop.(*Loop).Run(") && strings.Contains(g, fn) && strings.Contains(g, "[select") {
+			c++
+		}
+	}
+
+	return c
+}
+
+// TestVerif_C03_RenominateVsRoleSwitch: application calls to RenominateCandidate queued behind / in front of
+// an inbound role-conflicting check (the checker owns the order: the task loop is held busy while the
+// participants queue up one by one, then released).  Whatever the order, a request carrying USE-CANDIDATE or
+// a nomination value is never emitted while the agent is controlled.
+func TestVerif_C03_RenominateVsRoleSwitch(t *testing.T) {
+	st := vfNewStats(t)
+	rapid.Check(t, func(rt *rapid.T) {
+		ties := c05TiePair().Draw(rt, "ties")
+		T, Tp := ties[0], ties[1]
+		conflictRole := rapid.SampledFrom([]string{"controlling", "controlling", "controlling", "controlled"}).Draw(rt, "peerRoleAttr")
+		nRenom := rapid.IntRange(1, 3).Draw(rt, "renominateCalls")
+		conflictAt := rapid.IntRange(0, nRenom).Draw(rt, "conflictPosition")
+		cfg := simAgentConfig{controlling: true, maxBinding: 7, disconnected: time.Hour, keepalive: 2 * time.Second, explicitTimeout: true, renomination: true}
+		s, err := newSoloSim(cfg, []duoSockSpec{{Kind: simKindHost}, {Kind: simKindHost}}, []soloEpSpec{{Typ: CandidateTypeHost}, {Typ: CandidateTypeHost}})
+		if err != nil {
+			rt.Fatalf("harness: %v", err)
+		}
+		defer s.close()
+		a := s.ag.a
+		_ = a.loop.Run(a.loop, func(context.Context) { a.tieBreaker = T })
+		if err := s.ag.start(s.peer.ufrag, s.peer.pwd); err != nil {
+			rt.Fatalf("harness: %v", err)
+		}
+		_ = s.ag.addRemoteSync(s.epCandidate(0, soloEpSpec{Typ: CandidateTypeHost}))
+		_ = s.ag.addRemoteSync(s.epCandidate(1, soloEpSpec{Typ: CandidateTypeHost}))
+		for round := 0; round < 3 && s.ag.selectedPair() == nil; round++ {
+			s.ag.tick()
+			for _, d := range s.agentRequests() {
+				s.removeInflight(d)
+				if ep := s.epByAddr(d.dst); ep != nil {
+					s.answer(d, ep)
+				}
+			}
+		}
+		if s.ag.selectedPair() == nil {
+			rt.Fatalf("harness: no selected pair after the handshake")
+		}
+		var pairs []*CandidatePair
+		_ = a.loop.Run(a.loop, func(context.Context) {
+			for _, p := range a.checklist {
+				if p.state == CandidatePairStateSucceeded {
+					pairs = append(pairs, p)
+				}
+			}
+		})
+		if len(pairs) == 0 {
+			rt.Fatalf("harness: no succeeded pair")
+		}
+		s.w.mu.Lock()
+		s.w.inflight = nil
+		s.w.mu.Unlock()
+		from := s.w.logLen()
+		// hold the loop
+		entered, release := make(chan struct{}), make(chan struct{})
+		go func() { _ = a.loop.Run(a.loop, func(context.Context) { close(entered); <-release }) }()
+		<-entered
+		type result struct {
+			pair *CandidatePair
+			err  error
+		}
+		results := make([]result, nRenom)
+		var wg sync.WaitGroup
+		var order []string
+		park := func(fn string, want int) {
+			for d := time.Now().Add(20 * time.Second); c03ParkedInRun(fn) < want; {
+				if time.Now().After(d) {
+					close(release)
+					st.Inconclusive()
+					rt.Fatalf("VERIF-INCONCLUSIVE: participant %s did not reach the task loop", fn)
+				}
+				runtime.Gosched()
+			}
+		}
+		queueConflict := func() {
+			wg.Add(1)
+			go func() {
+				defer wg.Done()
+				s.peerRequest(s.eps[0], s.ag.socks[0], false, nil, 1234, conflictRole, Tp)
+			}()
+			park("handleInboundPacket", 1)
+			order = append(order, fmt.Sprintf("check(ICE-%s tie %d vs own %d)", strings.ToUpper(conflictRole), Tp, T))
+		}
+		for i := 0; i < nRenom; i++ {
+			if i == conflictAt {
+				queueConflict()
+			}
+			p := pairs[rapid.IntRange(0, len(pairs)-1).Draw(rt, "pair")]
+			results[i].pair = p
+			wg.Add(1)
+			go func(i int) {
+				defer wg.Done()
+				results[i].err = a.RenominateCandidate(p.Local, p.Remote)
+			}(i)
+			park("RenominateCandidate", i+1)
+			order = append(order, "RenominateCandidate("+pairKey(p)+")")
+		}
+		if conflictAt == nRenom {
+			queueConflict()
+		}
+		close(release)
+		doneCh := make(chan struct{})
+		go func() { wg.Wait(); close(doneCh) }()
+		select {
+		case <-doneCh:
+		case <-time.After(20 * time.Second):
+			dead, dump := vfStuck("pion/ice/v4")
+			if dead {
+				st.Fail(rt, "C03/renominate/never-returns", "queued calls never returned\n%s", dump)
+			}
+			st.Inconclusive()
+			rt.Fatalf("VERIF-INCONCLUSIVE: queued calls still running after 20 s")
+		}
+		s.w.settle()
+		finalControlling := a.isControlling.Load()
+		desc := fmt.Sprintf("queued: %s | final role controlling=%v", strings.Join(order, "; "), finalControlling)
+		sentWhileControlled, nominations := 0, 0
+		s.w.mu.Lock()
+		log := append([]simEvent{}, s.w.log[from:]...)
+		s.w.mu.Unlock()
+		for _, e := range log {
+			if e.kind != "emit" || e.side != 0 || e.d.msg == nil || e.d.msg.class != stun.ClassRequest {
+				continue
+			}
+			if e.d.msg.useCand || e.d.msg.nomination != nil {
+				nominations++
+				if !e.d.srcControlling {
+					sentWhileControlled++
+					st.Fail(rt, "C03/controlled/sent-use-candidate", "agent emitted %s while it was controlled\n%s", e.d, desc)
+				}
+			}
+		}
+		okCalls := 0
+		for i, r := range results {
+			switch {
+			case r.err == nil:
+				okCalls++
+			case errors.Is(r.err, ErrOnlyControllingAgentCanRenominate):
+				if finalControlling {
+					st.Fail(rt, "C03/renominate/refused-while-controlling", "call %d refused with %v although the agent never left the controlling role\n%s", i, r.err, desc)
+				}
+			default:
+				st.Fail(rt, "C03/renominate/unexpected-error", "call %d: %v\n%s", i, r.err, desc)
+			}
+		}
+		if okCalls > nominations {
+			st.Fail(rt, "C03/renominate/accepted-but-nothing-sent", "%d calls returned nil but only %d nomination requests were emitted\n%s", okCalls, nominations, desc)
+		}
+		lost := !finalControlling
+		behind := lost && conflictAt < nRenom
+		st.Record(vfHashStr(desc), behind, fmt.Sprintf("role-lost:%v", lost), fmt.Sprintf("renominate-queued-behind-lost-conflict:%v", behind))
+		if behind && st.WantSample() {
+			st.Sample(func() string { return desc })
 		}
 	})
 }
